@@ -72,6 +72,8 @@ ASSUMPTIONS = [
     'calc_rdm / calc_rdm_movie must leave the dataset(s), precision(s) and bins they are given '
     'bit-identical incl. dtypes, keys and container types (otherwise the values of later calls on '
     'the same objects no longer equal the formula on the supplied data); checked after every call',
+    'no absolute tolerance floor anywhere in the scaled / homogeneity judgements (values of 1e-24 are '
+    'judged like values of 1); the reference\'s constant-pattern test is relative too',
     'scaled data: a correct evaluation may err by a small multiple of 1e-16 times the magnitude of '
     'the terms it sums (ref.magnitude); allowed 1e-9*|value| + 1e-12*magnitude',
     'unbalanced=True movies: only the stacking is judged (each frame == calc_rdm_unbalanced of the data '
@@ -97,6 +99,10 @@ BOUNDS = {
               'tierA': '{0,1,2}^(n x P): (2,1..3) (3,1..2) (4,1), every partition, 6 method configurations',
               'movie': {'n_time': [1, 3], 'n_obs': [1, 3], 'n_channel': [1, 2, 3],
                         'binnings': 'none + every partition of the time points, both bin orders'},
+              'extreme_scales': 'measurements x1e-9, x1e-12, x1e8 (euclidean, correlation, mahalanobis; poisson '
+                                'only at 1e8) through the same oracle, purely relative tolerance; homogeneity '
+                                'law calc_rdm(c*data) == c^2 (c^0 for correlation) * calc_rdm(data) for the '
+                                'same c, two real calls',
               'scales': 'measurements x1e-5, x1e4; precision x1e-8, x1e6 and two mixed; n_obs 1..3 (+5 of n=4), '
                         'all 16 method configurations, single/one-element list/list of two/movie',
               'labels': '100000+k, 1696300000.0+0.5k, prefix strings; list and ndarray; every partition n<=4, '
@@ -1086,6 +1092,81 @@ def _run_movieunb(case, ctx):
     ctx.case(case, nontrivial=judged > 0)
 
 
+# ----------------------------------------------------------------------------- homogeneity law
+EXTREME_SCALES = (1e-9, 1e-12, 1e8)
+HOMOG_DEGREE = {'euclidean': 2, 'mahalanobis': 2, 'correlation': 0}
+
+
+def _run_homog(case, ctx):
+    """calc_rdm(c * data) == c^degree * calc_rdm(data) (degree 2 for euclidean / mahalanobis, 0 for
+    correlation), two real calls compared per pair of returned labels.  Tolerance purely relative:
+    1e-9 of the value plus the rounding floor 1e-12 * magnitude of the terms summed for the scaled data."""
+    from rsatoolbox.data import Dataset
+    from rsatoolbox.rdm import calc_rdm
+    c = case['c']
+    method = case['method']
+    deg = HOMOG_DEGREE[method]
+    n_ch = case['P']
+    desc = case['desc']
+    rows1, labels, extra = _single_model(dict(case, kind='single', scale=None), ctx.seed)
+    rows2, _, _ = _single_model(dict(case, kind='single', scale=c), ctx.seed)
+    prec = _precision(case.get('prec', 'none'), n_ch, ctx.seed) if method == 'mahalanobis' else None
+    res = []
+    for rows in (rows1, rows2):
+        obs = {'cond': _mk(labels, case['container'])}
+        if extra is not None:
+            obs['extra'] = _mk(extra, case['container'])
+        ds = Dataset(np.array(rows, dtype=float), descriptors={'subj': 's1', 'sess': 3}, obs_descriptors=obs)
+        noise = None if prec is None else prec.copy()
+        kw = _lib_kwargs(case, noise)
+        arg = [ds] if case['form'] == 'list1' else ds
+        form = 'single' if case['form'] == 'single' else 'list-input(n=1)'
+        snap = _snapshot([ds], noise=noise)
+        ok, rdms = _call(ctx, 'calc_rdm', '%s,%s' % (form, 'descriptor' if desc else 'no-descriptor'), case,
+                         lambda: calc_rdm(arg, descriptor=desc, **kw))
+        _check_untouched(ctx, case, 'calc_rdm', _acls('calc_rdm', form, case, case) + ',scaled', snap, [ds], noise=noise)
+        if not ok:
+            ctx.case(case, nontrivial=False)
+            return
+        res.append(rdms)
+    r1, r2 = res
+    vcls = '%s,%s,scaled' % (case['form'] if case['form'] == 'single' else 'list-input', _mtag(case))
+    keys = labels if desc else list(range(len(rows1)))
+    l1 = list(r1.pattern_descriptors['cond']) if desc else list(range(r1.n_cond))
+    l2 = list(r2.pattern_descriptors['cond']) if desc else list(range(r2.n_cond))
+    judged = 0
+    if r1.n_cond != r2.n_cond or r1.n_rdm != 1 or r2.n_rdm != 1:
+        ctx.fail('calc_rdm|%s|not-homogeneous' % vcls, case, 'shapes differ: %d vs %d conditions' % (r1.n_cond, r2.n_cond))
+    else:
+        order, means_unused = ref.condition_means(rows2, keys)
+        mags = ref.magnitude_table(rows2, keys, method, **_ref_opts(case, prec))
+        defined = ref.expected_table(rows2, keys, method, **_ref_opts(case, prec))[1]
+        nc = r2.n_cond
+        where1 = [ref.find_label(lab, l1) for lab in l2]
+        wherem = [ref.find_label(lab, order) for lab in l2]
+        for i in range(nc):
+            for j in range(i + 1, nc):
+                if where1[i] is None or where1[j] is None or wherem[i] is None or wherem[j] is None:
+                    ctx.fail('calc_rdm|%s|not-homogeneous' % vcls, case, 'labels differ: %r vs %r' % (l1, l2))
+                    continue
+                a, b = sorted((wherem[i], wherem[j]))
+                if defined[(a, b)] is None:
+                    ctx.exclude('%s undefined for the pair (constant pattern / one channel)' % method)
+                    continue
+                got = float(r2.dissimilarities[0, ref.vector_position(i, j, nc)])
+                base = float(r1.dissimilarities[0, ref.vector_position(where1[i], where1[j], nc)])
+                want = (c ** deg) * base
+                allowed = TOL * abs(want) + TOL_MAG * mags[(a, b)]
+                err = abs(got - want)
+                judged += 1
+                ctx.dev('homogeneity:' + method + ' (error/allowed)', err / allowed if allowed > 0 else float(err > 0))
+                if not err <= allowed:
+                    ctx.fail('calc_rdm|%s|not-homogeneous' % vcls, case,
+                             'pair (%r,%r): calc_rdm(c*data) = %.12g but c^%d * calc_rdm(data) = %.12g (c = %g)' % (
+                                 l2[i], l2[j], got, deg, want, c))
+    ctx.case(case, nontrivial=judged > 0)
+
+
 # ----------------------------------------------------------------------------- dispatch
 def run_case(case, ctx):
     kind = case['kind']
@@ -1103,6 +1184,8 @@ def run_case(case, ctx):
         _run_movielist(case, ctx)
     elif kind == 'movieunb':
         _run_movieunb(case, ctx)
+    elif kind == 'homog':
+        _run_homog(case, ctx)
     else:
         raise ValueError(kind)
 
@@ -1214,9 +1297,14 @@ def shards(tier, seed):
     for nt in range(1, 4 if th else 3):
         out.append({'kind': 'movieunb', 'nt': nt})
     # H: data and precision scales far from one (relative tolerances)
-    for scale, nscale in ((1e-5, None), (1e4, None), (None, 1e-8), (None, 1e6), (1e-5, 1e6), (1e4, 1e-8)):
+    for scale, nscale in ((1e-5, None), (1e4, None), (None, 1e-8), (None, 1e6), (1e-5, 1e6), (1e4, 1e-8),
+                          (1e-9, None), (1e-12, None), (1e8, None), (1e-12, 1e6)):
         for n_ch in (1, 2, 3):
             out.append({'kind': 'scale', 'scale': scale, 'nscale': nscale, 'P': n_ch})
+    # H2: homogeneity law calc_rdm(c*data) == c^degree * calc_rdm(data) at extreme scales
+    for c in EXTREME_SCALES:
+        for n_ch in (1, 2, 3):
+            out.append({'kind': 'homog', 'c': c, 'P': n_ch})
     # I: condition labels that are large and close together / prefixes of each other
     for tag in LABEL_TAGS:
         for container in ('list', 'nd'):
@@ -1447,6 +1535,9 @@ def run_shard(shard, ctx):
             mconfs = [m for m in mconfs if m['method'] == 'mahalanobis' and m['prec'] != 'none']
         if n_ch < 2:
             mconfs = [m for m in mconfs if m['method'] != 'correlation']
+        tiny = bool(shard['scale']) and shard['scale'] < 1e-6     # poisson is not homogeneous: the prior
+        if tiny:                                                    # dominates there, nothing to judge
+            mconfs = [m for m in mconfs if m['method'] != 'poisson']
         parts = [p for n in (1, 2, 3) for p in _partitions(n)] + (_partitions(4) if th else _partitions(4)[1::3])
         for idx, part in enumerate(parts):
             n = len(part)
@@ -1459,7 +1550,8 @@ def run_shard(shard, ctx):
                 run_case(dict(base, desc=None, **mconf), ctx)
         lconfs = [m for m in _mconfs(listnoise=True) if (not shard['nscale'] or (m['method'] == 'mahalanobis' and
                                                                                   m['prec'] != 'none'))
-                  and not (m['method'] == 'correlation' and n_ch < 2) and (th or not m['rm'])]
+                  and not (m['method'] == 'correlation' and n_ch < 2) and (th or not m['rm'])
+                  and not (tiny and m['method'] == 'poisson')]
         for i1, part1 in enumerate(_partitions(2)):
             for i2, part2 in enumerate(_partitions(2)):
                 for offset in ('same', 'shift', 'disjoint'):
@@ -1470,7 +1562,7 @@ def run_shard(shard, ctx):
                         run_case(dict(base, **mconf), ctx)
         mv = [m for m in _mconfs(rm=False) if (not shard['nscale'] or (m['method'] == 'mahalanobis' and
                                                                         m['prec'] != 'none'))
-              and not (m['method'] == 'correlation' and n_ch < 2)]
+              and not (m['method'] == 'correlation' and n_ch < 2) and not (tiny and m['method'] == 'poisson')]
         for bi, bins in enumerate((None, [[0, 1]], [[1], [0]])):
             for pi, part in enumerate(_partitions(3)):
                 base = dict(sc, kind='movie', n=3, P=n_ch, nt=2, torder='asc' if pi % 2 else 'desc', taxis='small',
@@ -1478,6 +1570,21 @@ def run_shard(shard, ctx):
                             extra='none', fill=0)
                 for mconf in mv:
                     run_case(dict(base, desc='cond' if (bi + pi) % 3 else None, **mconf), ctx)
+    elif kind == 'homog':
+        n_ch, c = shard['P'], shard['c']
+        mconfs = [m for m in _mconfs() if m['method'] in HOMOG_DEGREE and m.get('prec') != 'eye'
+                  and not (m['method'] == 'correlation' and (m['rm'] or n_ch < 2))]
+        parts = [p for n in (1, 2, 3) for p in _partitions(n)] + (_partitions(4) if th else _partitions(4)[2::4])
+        for idx, part in enumerate(parts):
+            n = len(part)
+            base = {'kind': 'homog', 'c': c, 'form': 'single' if idx % 3 else 'list1', 'n': n, 'P': n_ch,
+                    'part': part, 'naming': ('desc', 'str', 'asc', 'big')[idx % 4],
+                    'container': 'list' if idx % 2 else 'nd', 'dtype': 'float', 'extra': 'const' if idx % 2 else 'none',
+                    'perm': list(range(n))[::-1], 'fill': 0}
+            for mi, mconf in enumerate(mconfs):
+                run_case(dict(base, desc='cond', **mconf), ctx)
+                if th or (mi + idx) % 2 == 0:
+                    run_case(dict(base, desc=None, **mconf), ctx)
     elif kind == 'labels':
         tag, container = shard['tag'], shard['container']
         confs = [{'method': 'euclidean', 'rm': False}, {'method': 'correlation', 'rm': False},
